@@ -574,7 +574,8 @@ func (c *constraint) matchesCaret(version *Version) bool {
 		// EXCEPT for specific cases like 1.0b1 vs 1.0.0 where the version format matters
 		if version.major == constraintVersion.major &&
 			version.minor == constraintVersion.minor &&
-			version.patch == constraintVersion.patch {
+			version.patch == constraintVersion.patch &&
+			version.extra == constraintVersion.extra {
 			// Check if this is the special case: ^1.0.0 should include 1.0b1
 			// but ^1.2.3 should NOT include 1.2.3-alpha
 			versionStr := version.String()
